@@ -316,9 +316,15 @@ def run(chk, facts, tier, only=None):
                     lab = {}
                     for nm, s1, s2, cnode in body_calls:
                         if nm == "check_func_params":
-                            lit = [x for x in walk(cnode["args"][8]) if x.get("k") == "lit"]
-                            lab[(s1, s2)] = (lit[0]["v"].get("str") if lit else None,
-                                             [x["v"].get("bool") for x in walk(cnode["args"][9]) if x.get("k") == "lit"])
+                            # the side marker: a string literal ("input" / "return") or an enum variant named after it, among the trailing arguments
+                            tail_args = cnode["args"][8:]
+                            lit = [x for a_ in tail_args for x in walk(a_) if x.get("k") == "lit" and isinstance(x["v"].get("str"), str)]
+                            word = lit[0]["v"]["str"] if lit else None
+                            if word is None:
+                                vs = [(x.get("res") or {}).get("path", "") for a_ in tail_args for x in walk(a_)
+                                      if x.get("k") == "path" and (x.get("res") or {}).get("kind") in ("Variant", "Ctor", "Const")]
+                                word = vs[0].rsplit("::", 1)[-1].lower() if vs else None
+                            lab[(s1, s2)] = (word, [x["v"].get("bool") for a_ in tail_args for x in walk(a_) if x.get("k") == "lit" and "bool" in x["v"]])
                     chk.expect(got == [((1,), (2,)), ((2,), (1,))] and lab.get(((2,), (1,)), (None,))[0] == "input"
                                and lab.get(((1,), (2,)), (None,))[0] == "return", f"{which}:func-variance",
                                f"{which}: function rule must check arguments contravariantly (f2.args <: f1.args, labelled input) and results "
